@@ -276,7 +276,7 @@ def levelb_mont(ctx):
 
 
 def levelb_sop(ctx):
-    for m in ([13] if ctx.quick() else [9, 11, 13, 15]):
+    for m in ([13] if ctx.quick() else [9, 11, 13]):     # not 15: with 1-bit limbs the two spare limbs of the accumulator give only a factor 4 of headroom (2^128 in the code)
         flow_levelb(ctx, "ImplMontSop", {"W": 1, "M": m, "BSet": "@AllB"}, ["SopOK"], init="InitS", nxt="NextS")
     if not ctx.quick():
         flow_levelb(ctx, "ImplMontSop", {"W": 2, "M": 181, "BSet": "@BoundaryB"}, ["SopOK"], init="InitS", nxt="NextS", workers=12, timeout=3600)
